@@ -165,8 +165,20 @@ def run_jobs(jobs, par):
         recs, res = S.run_family(fam, **kw)
         print("  TLC %-46s %7d scenarios, %7d states, %5.1fs" % (name, len(recs), res.distinct, time.time() - t0), flush=True)
         return recs, res
+    # the expensive families first (the cost grows with the number of scenarios), results in plan order
+    order = sorted(range(len(jobs)), key=lambda i: -_cost(jobs[i]))
+    out = [None] * len(jobs)
     with ThreadPoolExecutor(max_workers=par) as ex:
-        return list(ex.map(one, jobs))
+        for i, r in zip(order, ex.map(one, [jobs[i] for i in order])):
+            out[i] = r
+    return out
+
+
+def _cost(job):
+    name, fam, kw = job
+    if fam == "GIVEN":
+        return len(kw["given"])
+    return {"DG": 2, "BOND": 3, "RULE": 5, "TYPED": 6, "TIMING": 7}[fam] ** kw["n"]
 
 
 # ----------------------------------------------------------------------------
@@ -276,7 +288,7 @@ def main(argv=None):
     if rp:
         return replay(chk, rp)
     jobs = plan(chk.tier, chk.seed)
-    results = run_jobs(jobs, par=4 if chk.tier == "quick" else 3)
+    results = run_jobs(jobs, par=6 if chk.tier == "quick" else 4)
     stats = {"scenarios": 0, "no_edges": 0, "ties": 0, "several_answers": 0, "dperc": 0}
     for (name, fam, kw), (recs, res) in zip(jobs, results):
         chk.add_tlc("Percolation %s" % name, res)
